@@ -20,9 +20,14 @@
 namespace vf {
 static std::vector<Rat> g_divs;
 static bool g_divzero = false;
+#ifndef VF_QL_POISON
+#define VF_QL_POISON 7777777
+#endif
 struct QL {
     Rat r;
-    QL() {}
+    // a default-constructed scalar is POISON, not zero: Fastor leaves `Tensor<T,...> x;` uninitialised for the real
+    // types, so code that relies on a zero must write it (a missing zero fill shows up as poison in the result)
+    QL() : r(Rat::make(VF_QL_POISON, 1)) {}
     QL(int v) : r(v) {}
     QL(long v) : r(v) {}
     QL(long long v) : r(v) {}
